@@ -31,7 +31,11 @@ Documented rules used:
   that session's suite and certificates, the suite must still be enabled (and keyed) on both
   sides of the configurations now in use, the application protocol is negotiated afresh, and
   both configurations must have a session cache.  When a session is resumed is not
-  prescribed here beyond the second-connection rule above (that is C10).
+  prescribed here beyond the second-connection rule above (that is C10);
+* every handshake ENDS on both sides, succeeding on both or failing on both (`endsOK`): whatever
+  the configurations, both calls of Handshake return by the protocol's own means â€” an endpoint
+  that refuses tells its peer (fatal alert; on the stream stack the end of the stream does too),
+  so that the peer fails as well instead of waiting for a flight that will never come.
 -/
 import Gotlcp.Model.NegotiateCfg
 
@@ -182,6 +186,22 @@ def historyOK (c : ClientCfg) (s : ServerCfg) : Option Agreed â†’ List Reconf â†
   | o, r :: rs, x :: xs =>
     connOK (r.client c) (r.server s) o x && historyOK c s (nextOrigin o x) rs xs
   | _, _, _ => false
+
+/-! ### "ends on both sides, succeeding on both or failing on both"
+
+How a call of Handshake came to its end, as far as the property is concerned.  `notEnded`: the call
+had not returned by the protocol's own means â€” because the endpoint raised an error, because the
+peer's fatal alert told it, or (stream stack) because the transport ended â€” when the observer gave
+up.  On a reliable transport that delivers at once a retransmission timer is no such means: the
+datagram stack re-sends its flight with a capped back-off and has no retry limit, so an endpoint
+whose peer failed WITHOUT telling it waits for ever; whatever finite time the observer allows
+separates the two. -/
+inductive EndStatus | succeeded | failed | notEnded
+  deriving DecidableEq, Repr
+
+/-- the first clause of the property, for one connection and whatever the configurations -/
+def endsOK (client server : EndStatus) : Bool :=
+  (client == .succeeded && server == .succeeded) || (client == .failed && server == .failed)
 
 /-- the parameters both ends must agree on -/
 def viewsAgree (a : Agreed) : Bool :=
